@@ -1,5 +1,6 @@
 #!/usr/bin/env python3
-"""verify the seeded changes produced by the sub-agents against /repo's current HEAD and store them under /verif/seeded/"""
+"""re-verify every stored seeded change (/verif/seeded/<id>/) against /repo's current HEAD: the patch applies, the 71 tests pass
+with it, the demonstration exits 0 without and non-zero with the change; updates meta.json"""
 import json
 import os
 import shutil
@@ -19,50 +20,42 @@ def sh(cmd, cwd=None, timeout=600, env=None):
 
 
 def main():
-    props = sys.argv[1:] or [f"C{i:02d}" for i in range(1, 21)]
+    only = sys.argv[1:]
     sh(f"git -C /repo worktree remove --force {SV}")
     rc, out = sh(f"git -C /repo worktree add -q --detach {SV} HEAD")
     assert rc == 0, out
     head = sh("git -C /repo rev-parse --short HEAD")[1].strip()
-    for pid in props:
-        for k in (1, 2):
-            src = f"/tmp/seed/{pid}-out"
-            patch, demo, notes = f"{src}/patch{k}.diff", f"{src}/demo{k}.py", f"{src}/notes{k}.md"
-            if not (os.path.exists(patch) and os.path.exists(demo)):
-                print(pid, k, "MISSING")
-                continue
-            sh("git checkout -q -- . && git clean -fdq", cwd=SV)
-            res = {"property": pid, "repo_head": head}
-            rc, out = sh(f"git apply --check {patch}", cwd=SV)
-            if rc != 0:
-                rc, out = sh(f"git apply --3way {patch}", cwd=SV)
-                sh("git checkout -q -- . ; git reset -q", cwd=SV)
-                res["applies"] = False
-                print(pid, k, "DOES NOT APPLY on current HEAD")
-                continue
-            shutil.copy(demo, f"{SV}/_demo.py")
-            env = {"PYTHONPATH": SV}
-            rc0, o0 = sh(f"{PY} _demo.py", cwd=SV, env=env, timeout=120)
-            sh(f"git apply {patch}", cwd=SV)
-            rct, ot = sh(f"{PY} -m pytest -q -p no:cacheprovider tests", cwd=SV, timeout=600)
-            if "71 passed" not in ot:   # the TCP tests bind a fixed port: retry once
-                rct, ot = sh(f"{PY} -m pytest -q -p no:cacheprovider tests", cwd=SV, timeout=600)
-            rc1, o1 = sh(f"{PY} _demo.py", cwd=SV, env=env, timeout=120)
-            ok = rc0 == 0 and "71 passed" in ot and rc1 != 0
-            res.update({"applies": True, "demo_rc_clean": rc0, "tests_with_change": ot.strip().split("\n")[-1], "demo_rc_with_change": rc1,
-                        "demo_output_with_change": o1[-600:], "confirmed": ok,
-                        "ran": [f"git apply patch.diff (on {head})", "pytest tests (71 passed)", "demo.py exits 0 without and non-zero with the change"]})
-            print(pid, k, "CONFIRMED" if ok else f"NOT CONFIRMED clean_rc={rc0} tests={res['tests_with_change']} rc_with={rc1}")
-            if ok:
-                dst = f"/verif/seeded/{pid}-{k}"
-                os.makedirs(dst, exist_ok=True)
-                shutil.copy(patch, f"{dst}/patch.diff")
-                shutil.copy(demo, f"{dst}/demo.py")
-                res["needs"] = open(notes).read() if os.path.exists(notes) else ""
-                json.dump(res, open(f"{dst}/meta.json", "w"), indent=1)
+    bad = 0
+    for name in sorted(os.listdir("/verif/seeded")):
+        d = f"/verif/seeded/{name}"
+        if not os.path.isdir(d) or name.startswith("_") or (only and name not in only):
+            continue
+        sh("git checkout -q -- . && git clean -fdq", cwd=SV)
+        meta = json.load(open(f"{d}/meta.json"))
+        rc, out = sh(f"git apply --check {d}/patch.diff", cwd=SV)
+        if rc != 0:
+            print(name, "DOES NOT APPLY on", head)
+            meta.update({"applies": False, "confirmed": False, "repo_head": head})
+            json.dump(meta, open(f"{d}/meta.json", "w"), indent=1)
+            bad += 1
+            continue
+        shutil.copy(f"{d}/demo.py", f"{SV}/_demo.py")
+        env = {"PYTHONPATH": SV}
+        rc0, o0 = sh(f"{PY} _demo.py", cwd=SV, env=env, timeout=180)
+        sh(f"git apply {d}/patch.diff", cwd=SV)
+        rct, ot = sh(f"{PY} -m pytest -q -p no:cacheprovider tests", cwd=SV)
+        if "71 passed" not in ot:
+            rct, ot = sh(f"{PY} -m pytest -q -p no:cacheprovider tests", cwd=SV)
+        rc1, o1 = sh(f"{PY} _demo.py", cwd=SV, env=env, timeout=180)
+        ok = rc0 == 0 and "71 passed" in ot and rc1 != 0
+        meta.update({"applies": True, "repo_head": head, "demo_rc_clean": rc0, "tests_with_change": ot.strip().split("\n")[-1], "demo_rc_with_change": rc1, "confirmed": ok})
+        json.dump(meta, open(f"{d}/meta.json", "w"), indent=1)
+        print(name, "CONFIRMED" if ok else f"NOT CONFIRMED clean_rc={rc0} tests={meta['tests_with_change']} rc_with={rc1}")
+        bad += not ok
     sh("git checkout -q -- . && git clean -fdq", cwd=SV)
     sh(f"git -C /repo worktree remove --force {SV}")
+    return 1 if bad else 0
 
 
 if __name__ == "__main__":
-    main()
+    sys.exit(main())
